@@ -477,3 +477,141 @@ Proof.
   apply andb_true_iff in H. destruct H as [A B]. split; [|apply IH; exact B].
   intros V. rewrite V in A. cbn in A. apply event_freshb_sound. exact A.
 Qed.
+
+(* ====================================================================================== *)
+(* `bounded` from validation (F44 repaired: explicit IDs above MaxRecordID are refused)    *)
+(* ====================================================================================== *)
+(* refused events leave every state untouched, so a history may be replaced by its valid events; those carry
+   explicit IDs <= c04_max_record_id only, and what is left of `bounded` is a bound on the number of rows *)
+Fixpoint valid_only (h : list iop) : list iop :=
+  match h with
+  | [] => []
+  | IRestart :: t => IRestart :: valid_only t
+  | IEvent ws ev :: t => if valid ev then IEvent ws ev :: valid_only t else valid_only t
+  end.
+
+(* fewer rows than the generator has room above MaxRecordID (2^63 with MaxRecordID = MaxInt64) *)
+Definition few_rows (h : list iop) : Prop := c04_max_record_id + 1 + N.of_nat (hist_rows h) < two64.
+
+Lemma layout_user_below_max : c04_first_user_id <= c04_max_record_id.
+Proof. vm_compute. discriminate. Qed.
+
+Definition st_eq (a b : state) : Prop := forall k, a k = b k.
+
+Lemma step_gen_ext au ps a b o : st_eq a b -> st_eq (step_gen au ps a o) (step_gen au ps b o).
+Proof.
+  intros E k. destruct o as [ws ev|]; cbn.
+  - unfold upd. destruct (k =? ws); [rewrite (E ws); reflexivity|apply E].
+  - rewrite (E k). reflexivity.
+Qed.
+
+Lemma run_gen_ext au ps : forall h a b, st_eq a b -> st_eq (run_gen au ps a h) (run_gen au ps b h).
+Proof.
+  induction h as [|o t IH]; intros a b E; [exact E|]. cbn [run_gen fold_left].
+  apply (IH _ _ (step_gen_ext au ps a b o E)).
+Qed.
+
+Lemma run_valid_only au ps : forall h st, st_eq (run_gen au ps st h) (run_gen au ps st (valid_only h)).
+Proof.
+  induction h as [|[ws ev|] t IH]; intros st; [intros k; reflexivity| |].
+  - cbn [valid_only]. destruct (valid ev) eqn:V.
+    + cbn [run_gen fold_left]. apply IH.
+    + cbn [run_gen fold_left]. intros k. rewrite <- (IH st k). apply run_gen_ext.
+      intros j. cbn [step_gen]. unfold step_event_gen. rewrite V. cbn [fst]. unfold upd.
+      destruct (N.eqb_spec j ws) as [->|NE]; reflexivity.
+  - cbn [valid_only run_gen fold_left]. apply IH.
+Qed.
+
+Lemma valid_only_app h1 h2 : valid_only (h1 ++ h2) = valid_only h1 ++ valid_only h2.
+Proof.
+  induction h1 as [|[ws ev|] t IH]; cbn; [reflexivity| |rewrite IH; reflexivity].
+  destruct (valid ev); cbn; rewrite IH; reflexivity.
+Qed.
+
+Lemma valid_only_rows h : (hist_rows (valid_only h) <= hist_rows h)%nat.
+Proof. induction h as [|[ws ev|] t IH]; cbn; [lia| |exact IH]. destruct (valid ev); cbn; lia. Qed.
+
+Lemma valid_only_in h o : In o (valid_only h) -> In o h.
+Proof.
+  induction h as [|[ws ev|] t IH]; cbn; [auto| |intros [E|I]; [left; exact E|right; apply IH; exact I]].
+  destruct (valid ev); cbn; [intros [E|I]; [left; exact E|right; apply IH; exact I]|intros I; right; apply IH; exact I].
+Qed.
+
+Lemma valid_only_ids h : Forall (fun x => x <= c04_max_record_id) (hist_ids (valid_only h)).
+Proof.
+  induction h as [|[ws ev|] t IH]; cbn; [constructor| |exact IH].
+  destruct (valid ev) eqn:V; [|exact IH]. cbn [hist_ids]. apply Forall_app. split; [|exact IH].
+  pose proof (vf_bound _ (valid_spec ev V)) as B. unfold ev_ids, ids. rewrite Forall_map. exact B.
+Qed.
+
+Lemma bounded_valid_only h : few_rows h -> bounded (valid_only h).
+Proof.
+  unfold few_rows, bounded. intros F. pose proof (valid_only_rows h). pose proof layout_user_below_max. split; [lia|].
+  eapply Forall_impl; [|apply valid_only_ids]. cbn. intros x Hx. lia.
+Qed.
+
+Lemma singles_ok_valid_only h : singles_ok h -> singles_ok (valid_only h).
+Proof. intros S ws ev I. apply (S ws ev). apply valid_only_in. exact I. Qed.
+
+(* the state before an accepted event, seen through the valid events only *)
+Lemma accepted_through_valid_only au ps h ws ev w' ev' rep :
+  few_rows (h ++ [IEvent ws ev]) -> singles_ok (h ++ [IEvent ws ev]) ->
+  step_event_gen au ps (run_gen au ps st_init h ws) ev = (w', Accepted ev' rep) ->
+  bounded (valid_only h ++ [IEvent ws ev]) /\ singles_ok (valid_only h ++ [IEvent ws ev])
+  /\ run_gen au ps st_init h ws = run_gen au ps st_init (valid_only h) ws.
+Proof.
+  intros F S E. destruct (step_event_accepts au ps _ ev _ _ _ E) as (V & _ & _).
+  assert (EQ : valid_only (h ++ [IEvent ws ev]) = valid_only h ++ [IEvent ws ev]).
+  { rewrite valid_only_app. cbn. rewrite V. reflexivity. }
+  rewrite <- EQ. split; [apply bounded_valid_only; exact F|]. split; [apply singles_ok_valid_only; exact S|].
+  apply run_valid_only.
+Qed.
+
+Theorem generated_ids_few_proved : forall au ps h ws ev w' ev' rep,
+  few_rows (h ++ [IEvent ws ev]) -> singles_ok (h ++ [IEvent ws ev]) ->
+  step_event_gen au ps (run_gen au ps st_init h ws) ev = (w', Accepted ev' rep) ->
+  chain (w_next (run_gen au ps st_init h ws)) (map snd rep) (w_next w')
+  /\ c04_first_user_id <= w_next (run_gen au ps st_init h ws) /\ w_next w' < two64.
+Proof.
+  intros au ps h ws ev w' ev' rep F S E.
+  destruct (accepted_through_valid_only au ps h ws ev w' ev' rep F S E) as (B & S' & EQ).
+  rewrite EQ in *. exact (generated_ids_proved au ps _ ws ev w' ev' rep B S' E).
+Qed.
+
+Theorem unique_few_proved : forall au ps h ws ev w' ev' rep,
+  few_rows (h ++ [IEvent ws ev]) -> singles_ok (h ++ [IEvent ws ev]) -> au = true ->
+  step_event_gen au ps (run_gen au ps st_init h ws) ev = (w', Accepted ev' rep) ->
+  NoDup (map snd rep)
+  /\ (forall x, In x (map snd rep) -> ~ In x (w_log (run_gen au ps st_init h ws)))
+  /\ w_log w' = w_log (run_gen au ps st_init h ws) ++ event_ids ev'.
+Proof.
+  intros au ps h ws ev w' ev' rep F S AU E.
+  destruct (accepted_through_valid_only au ps h ws ev w' ev' rep F S E) as (B & S' & EQ).
+  rewrite EQ in *. exact (unique_proved au ps _ ws ev w' ev' rep B S' (or_introl AU) E).
+Qed.
+
+Theorem stored_ids_distinct_few_proved : forall au ps h ws ev w' ev' rep,
+  few_rows (h ++ [IEvent ws ev]) -> singles_ok (h ++ [IEvent ws ev]) ->
+  explicit_above_singletons ev -> c04_sync_prepass = true ->
+  step_event_gen au ps (run_gen au ps st_init h ws) ev = (w', Accepted ev' rep) ->
+  NoDup (event_ids ev').
+Proof.
+  intros au ps h ws ev w' ev' rep F S HX PP E.
+  destruct (accepted_through_valid_only au ps h ws ev w' ev' rep F S E) as (B & S' & EQ).
+  rewrite EQ in *. exact (stored_ids_distinct_hist_proved au ps _ ws ev w' ev' rep B S' HX (or_introl PP) E).
+Qed.
+
+Theorem recovery_dominates_few_proved : forall au ps h ws,
+  few_rows h -> singles_ok h ->
+  let w := run_gen au ps st_init (h ++ [IRestart]) ws in
+  Forall (fun x => x < w_next w) (w_log w) /\ c04_first_user_id <= w_next w.
+Proof.
+  intros au ps h ws F S. cbn zeta.
+  assert (EQ : run_gen au ps st_init (h ++ [IRestart]) ws = run_gen au ps st_init (valid_only h ++ [IRestart]) ws).
+  { rewrite (run_valid_only au ps (h ++ [IRestart]) st_init ws), valid_only_app. reflexivity. }
+  rewrite EQ. exact (recovery_dominates_proved au ps (valid_only h) ws (bounded_valid_only h F) (singles_ok_valid_only h S)).
+Qed.
+
+Definition few_rowsb (h : list iop) : bool := c04_max_record_id + 1 + N.of_nat (hist_rows h) <? two64.
+Lemma few_rowsb_sound h : few_rowsb h = true -> few_rows h.
+Proof. unfold few_rowsb, few_rows. lia. Qed.
